@@ -810,7 +810,7 @@ func (c *updater) buildBackendProtocol(d *backData) {
 	}
 	if crt := d.mapper.Get(ingtypes.BackSecureCrtSecret); crt.Value != "" {
 		var crtFile convtypes.CrtFile
-		namespace, name, err := crt.NamespacedName()
+		namespace, name, err := crt.ResourceName()
 		if err == nil {
 			crtFile, err = c.cache.GetTLSSecretPath(
 				namespace,
@@ -848,7 +848,7 @@ func (c *updater) buildBackendProtocol(d *backData) {
 	}
 	if ca := d.mapper.Get(ingtypes.BackSecureVerifyCASecret); ca.Value != "" {
 		var caFile, crlFile convtypes.File
-		namespace, name, err := ca.NamespacedName()
+		namespace, name, err := ca.ResourceName()
 		if err == nil {
 			caFile, crlFile, err = c.cache.GetCASecretPath(
 				namespace,
